@@ -43,7 +43,7 @@ def eqc(a, b):
 
 
 def build(E, c, recs, aniso, mapping, nan_at=None, nsrc=1, rel=False,
-          W=None, sim_kw=None):
+          W=None, sim_kw=None, gridding='same'):
     W = W or simx.World()
     keep = []
     saved = simx.install(E, W, keep) + [None]
@@ -61,7 +61,10 @@ def build(E, c, recs, aniso, mapping, nan_at=None, nsrc=1, rel=False,
     if nan_at is not None:
         sv.data.observed.data[nan_at] = symx.NAN
     model, vals = simx.make_model(E, c, grid, aniso, mapping)
-    sim = E.simulations.Simulation(sv, model, gridding='same',
+    sim_kw = dict(sim_kw or {})
+    if callable(sim_kw.get('gridding_opts')):
+        sim_kw['gridding_opts'] = sim_kw['gridding_opts'](sv, grid)
+    sim = E.simulations.Simulation(sv, model, gridding=gridding,
                                    max_workers=1,
                                    receiver_interpolation='linear', verb=0,
                                    tqdm_opts=False, **(sim_kw or {}))
